@@ -1,6 +1,9 @@
 package c18
 
 import (
+	"reflect"
+	"path/filepath"
+	"os"
 	"fmt"
 	"runtime"
 	"runtime/debug"
@@ -59,6 +62,11 @@ type Order struct {
 	Perm []int // permutation of line indices
 	Cuts []int // file boundaries: positions in Perm where a new "file" starts (text mode)
 	Text bool  // true: write benchmark-format files and parse them with benchfmt.Reader
+	// ViaFiles (text mode): the files are written to disk and added with Builder.AddFiles;
+	// BadLine >= 0 then inserts a malformed benchmark line (a non-fatal syntax error that
+	// must only be skipped) before the BadLine-th result line of the first file.
+	ViaFiles bool
+	BadLine  int
 }
 
 type Case struct {
@@ -350,6 +358,41 @@ func (c *Case) run(o Order) (out *gotOutput, err error, pan *libPanic) {
 		}
 	} else {
 		cuts := append(append([]int{0}, o.Cuts...), len(o.Perm))
+		if o.ViaFiles {
+			dir, cleanup := vcase.ScratchDir("c18-")
+			defer cleanup()
+			var paths []string
+			for f := 0; f+1 < len(cuts); f++ {
+				if cuts[f] >= cuts[f+1] {
+					continue
+				}
+				txt := c.fileText(o.Perm[cuts[f]:cuts[f+1]])
+				if len(paths) == 0 && o.BadLine >= 0 {
+					// insert the malformed line before the BadLine-th benchmark line
+					lines := strings.SplitAfter(txt, "\n")
+					seen := 0
+					for li, l := range lines {
+						if strings.HasPrefix(l, "Benchmark") {
+							if seen == o.BadLine {
+								lines = append(lines[:li], append([]string{"BenchmarkInterleaved 12 notanumber ns/op\n"}, lines[li:]...)...)
+								break
+							}
+							seen++
+						}
+					}
+					txt = strings.Join(lines, "")
+				}
+				p := filepath.Join(dir, "f"+strconv.Itoa(f)+".txt")
+				if err := os.WriteFile(p, []byte(txt), 0o644); err != nil {
+					return nil, fmt.Errorf("harness error: %v", err), nil
+				}
+				paths = append(paths, p)
+			}
+			if err := b.AddFiles(benchfmt.Files{Paths: paths}); err != nil {
+				return nil, fmt.Errorf("AddFiles: %v", err), nil
+			}
+			cuts = nil
+		}
 		for f := 0; f+1 < len(cuts); f++ {
 			if cuts[f] >= cuts[f+1] {
 				continue
@@ -389,6 +432,66 @@ func (c *Case) run(o Order) (out *gotOutput, err error, pan *libPanic) {
 	if err != nil {
 		return nil, fmt.Errorf("AllComparisonSeries: %v", err), nil
 	}
+	out = collectSeries(css)
+	// the series depend on the result set only: building them again from the same
+	// builder gives the same thing
+	var css2 []*benchseries.ComparisonSeries
+	func() {
+		defer func() {
+			if e := recover(); e != nil {
+				pan = &libPanic{val: e, stack: string(debug.Stack())}
+			}
+		}()
+		css2, err = b.AllComparisonSeries(nil, c.Policy)
+	}()
+	if pan != nil {
+		return nil, nil, pan
+	}
+	if err != nil {
+		return nil, fmt.Errorf("second AllComparisonSeries: %v", err), nil
+	}
+	// (with REPLACE, experiments stamped with the same instant have no defined winner:
+	// known finding C18-b; the comparison is then not made)
+	sameInstant := false
+	for i := range c.Exps {
+		for j := i + 1; j < len(c.Exps); j++ {
+			if c.Exps[i].At == c.Exps[j].At {
+				sameInstant = true
+			}
+		}
+	}
+	if out2 := collectSeries(css2); !(sameInstant && c.Policy == benchseries.DUPE_REPLACE) && !reflect.DeepEqual(stripSummaries(out), stripSummaries(out2)) {
+		a, b2 := stripSummaries(out), stripSummaries(collectSeries(css2))
+		detail := ""
+		for u, pts := range a {
+			for k, p := range pts {
+				if !reflect.DeepEqual(p, b2[u][k]) {
+					detail = fmt.Sprintf("table %q point %q: first num %v den %v, second num %v den %v", u, k, p[0], p[1], b2[u][k][0], b2[u][k][1])
+				}
+			}
+		}
+		return nil, fmt.Errorf("a second AllComparisonSeries call on the same builder gives different series: %s", detail), nil
+	}
+	return out, nil, nil
+}
+
+// stripSummaries returns the part of an output that is a pure function of the
+// result set (bootstrap summaries of order-dependent REPLACE ties aside).
+func stripSummaries(o *gotOutput) map[string]map[string][2][]float64 {
+	m := map[string]map[string][2][]float64{}
+	for u, t := range o.tables {
+		m[u] = map[string][2][]float64{}
+		for k, p := range t.points {
+			num, den := append([]float64{}, p.num...), append([]float64{}, p.den...)
+			sort.Float64s(num) // samples are multisets: COMBINE concatenates experiments in map order
+			sort.Float64s(den)
+			m[u][k] = [2][]float64{num, den}
+		}
+	}
+	return m
+}
+
+func collectSeries(css []*benchseries.ComparisonSeries) (out *gotOutput) {
 	out = &gotOutput{tables: map[string]*gotTable{}}
 	for _, cs := range css {
 		out.units = append(out.units, cs.Unit)
@@ -423,7 +526,7 @@ func (c *Case) run(o Order) (out *gotOutput, err error, pan *libPanic) {
 		}
 		out.tables[cs.Unit] = gt
 	}
-	return out, nil, nil
+	return out
 }
 
 // settings of the cross-order summary comparison (any fixed values do)
@@ -1017,6 +1120,13 @@ func Gen(t *rapid.T) Case {
 				ord.Cuts = append(ord.Cuts, rapid.IntRange(0, len(idx)).Draw(t, "cut"))
 			}
 			sort.Ints(ord.Cuts)
+			ord.BadLine = -1
+			if rapid.Bool().Draw(t, "viafiles") {
+				ord.ViaFiles = true
+				if rapid.Bool().Draw(t, "badline") {
+					ord.BadLine = rapid.IntRange(0, 3).Draw(t, "badat")
+				}
+			}
 		}
 		c.Orders = append(c.Orders, ord)
 	}
